@@ -161,11 +161,24 @@ class Finding:
         self.d = d
 
 
+_KNOWN_CACHE = None
+
+
 def load_known():
     p = os.path.join(VERIF, "known_findings.json")
     if not os.path.exists(p):
         return []
-    return json.load(open(p)).get("findings", [])
+    global _KNOWN_CACHE
+    if _KNOWN_CACHE is None:
+        for attempt in range(5):
+            try:
+                _KNOWN_CACHE = json.load(open(p)).get("findings", [])
+                break
+            except ValueError:
+                time.sleep(0.5)
+        else:
+            raise ToolError("known_findings.json is not valid JSON")
+    return _KNOWN_CACHE
 
 
 def match_known(pid, viol):
@@ -304,10 +317,13 @@ class Ctx:
             return False
         n = len(self.violations) + 1
         os.makedirs(os.path.join(REPLAYS, self.pid), exist_ok=True)
-        p = os.path.join(REPLAYS, self.pid, "violation-%d.json" % n)
-        with open(p, "w") as f:
-            json.dump({"property": self.pid, "violation": viol, "replay": replay_obj, "seed": self.seed,
-                       "tier": self.tier}, f, indent=1)
+        if n <= 20:       # replay files for the first 20 violations; the rest are only counted
+            p = os.path.join(REPLAYS, self.pid, "violation-%d.json" % n)
+            with open(p, "w") as f:
+                json.dump({"property": self.pid, "violation": viol, "replay": replay_obj, "seed": self.seed,
+                           "tier": self.tier}, f, indent=1, default=str)
+        else:
+            p = self.violations[0][1]
         self.violations.append((viol, p))
         return True
 
